@@ -504,7 +504,13 @@ func splitConflictedUnconflicted(algoVersion StateResAlgorithm, stateSets [][]PD
 	// that we can easily spot events that are "conflicted", e.g.
 	// there are duplicate values for the same tuple key.
 	for _, events := range stateSets {
+		// a state set is a map: an event that its list names twice is in it once
+		seenInSet := make(map[string]struct{}, len(events))
 		for _, event := range events {
+			if _, repeated := seenInSet[event.EventID()]; repeated {
+				continue
+			}
+			seenInSet[event.EventID()] = struct{}{}
 			numSeen := eventIDCountMap[event.EventID()]
 			eventIDCountMap[event.EventID()] += 1
 			if numSeen > 0 {
